@@ -224,6 +224,8 @@ def breaker_docs(ver, filler, k):
     yield 'header-capitalised', doc(header='Ver:"%s"' % ver)
     yield 'header-non-numeric-version', doc(header='ver:"abc"')
     yield 'header-missing-colon', doc(header='ver "%s"' % ver)
+    for h in ('ver: "%s"', 'ver :"%s"', 'ver:  "%s" site', ' ver:"%s"', 'ver:"%s"site', 'ver="%s"'):
+        yield 'header-malformed', doc(header=h % ver)
     yield 'unterminated-string', doc(row1='%s,"mid","end' % fv)
     yield 'unterminated-long-string', doc(row1='%s,"mid","%s' % (fv, 'The quick brown fox jumps over the lazy dog 0123456789 ' * 2))
     yield 'unterminated-string-in-meta', doc(header='ver:"%s" dis:"D' % ver)
@@ -250,8 +252,10 @@ def breaker_docs(ver, filler, k):
                                ('<<ver:"3.0"\nx\n1\n>>', ['<<ver:"3.0"\nx\n1\n', 'ver:"3.0"\nx\n1\n>>', '<<ver:"3.0"\nx\n1\n>'])):
             for v in variants:
                 yield 'unbalanced-bracket', '\n'.join([head, 'a', v, ''])
-        for bad in ('Abc', '9a', 'a-b', u't\xe4g', u'x\u0661'):
+        for bad in ('Abc', '9a', 'a-b', u't\xe4g', u'x\u0661', 'Foo', '_x'):
             yield 'illegal-dict-tag', doc(row1='{%s:1},"mid","end"' % bad)
+            yield 'illegal-dict-tag', doc(row1='{%s},"mid","end"' % bad)
+            yield 'illegal-dict-tag', doc(row1='{a %s c:1},"mid","end"' % bad)
         for v3 in ('NA', '[1]', '{a:1}', '<<ver:"2.0"\nx\n1\n>>', 'Foo("x")', '[]', '{}'):
             yield '3.0-construct-under-2.0', '\n'.join(['ver:"2.0"', 'a,b', '%s,1' % v3, ''])
             yield '3.0-construct-under-2.0', '\n'.join(['ver:"2.0" m:%s' % v3, 'a', '1', ''])
